@@ -13,11 +13,11 @@ CONSTANTS OrdKinds,     \* ordinary attribute kinds usable with add_attribute / 
           MaxOps        \* bound on the number of successful additions (the list cannot grow beyond the kinds anyway)
 
 \* kind -> wire type and concrete value used for serialisation
-KindType(k) == CASE k = "A" -> 32802 [] k = "B" -> 32810 [] k = "R" -> 32513 [] k = "U" -> 6 [] k = "Z" -> 0
+KindType(k) == CASE k = "A" -> 32802 [] k = "B" -> 32810 [] k = "R" -> 32520 [] k = "U" -> 6 [] k = "Z" -> 0
                  [] k = "MI" -> 8 [] k = "MI256" -> 28 [] k = "FP" -> 32808
 KindValue(k) == CASE k = "A" -> <<97, 98>>                 \* SOFTWARE "ab" (2 padding bytes)
                   [] k = "B" -> <<0, 0, 0, 0, 0, 0, 1, 44>>  \* ICE-CONTROLLING 300: aligned, and a type code above FINGERPRINT's
-                  [] k = "R" -> <<1, 2, 3>>                \* unknown 0x7f01, 1 padding byte
+                  [] k = "R" -> <<1, 2, 3>>                \* unknown 0x7f08 (low byte = MESSAGE-INTEGRITY's), 1 padding byte
                   [] k = "U" -> <<>>                       \* USERNAME ""
                   [] k = "Z" -> <<5>>                      \* raw attribute of the reserved type 0x0000
                   [] k = "MI" -> [i \in 1..20 |-> 160 + i]
